@@ -410,3 +410,173 @@ pub fn rung(f: &[&str]) -> String {
     let env = Env::parse(f[8]);
     in_child(timeout, move || by_width!(w, rung_w, &backend, level, mode, guard, &src, &env))
 }
+
+fn hexs(b: &[u8]) -> String {
+    b.iter().map(|x| format!("{x:02x}")).collect()
+}
+
+fn print_w<C: CellType>(what: &str, level: u32, src: &str) -> String {
+    let p = match ir::Program::<C>::parse(src) {
+        Ok(p) => p.optimize(level),
+        Err(e) => return err_string(&e),
+    };
+    match what {
+        "ir" => format!("ok {}", hexs(format!("{p:?}\n").as_bytes())),
+        "bc" => format!("ok {}", hexs(format!("{:?}\n", bc::CodeGen::translate(&p, 2, true)).as_bytes())),
+        "jitbc" => format!("ok {}", hexs(format!("{:?}\n", bc::CodeGen::translate(&p, 12, false)).as_bytes())),
+        _ => "ERR what".into(),
+    }
+}
+
+/// print|what(ir|bc|jitbc)|w|level|src-hex : hex of what the CLI print modes must write
+pub fn print(f: &[&str]) -> String {
+    let what = f[0].to_string();
+    let w: u32 = f[1].parse().unwrap();
+    let level: u32 = f[2].parse().unwrap();
+    let src = String::from_utf8(hex_bytes(f[3])).expect("utf8 source");
+    in_child(20000, move || by_width!(w, print_w, &what, level, &src))
+}
+
+fn printmc_w<C: CellType>(level: u32, limited: bool, safe: bool, src: &str) -> String {
+    match BaseJitCompiler::<C>::create(src, level) {
+        Ok(ex) => format!("ok {}", hexs(&ex.print_mc(limited, safe))),
+        Err(e) => err_string(&e),
+    }
+}
+
+/// printmc|w|level|limited|safe|src-hex
+pub fn printmc(f: &[&str]) -> String {
+    let w: u32 = f[0].parse().unwrap();
+    let level: u32 = f[1].parse().unwrap();
+    let limited = f[2] == "1";
+    let safe = f[3] == "1";
+    let src = String::from_utf8(hex_bytes(f[4])).expect("utf8 source");
+    in_child(20000, move || by_width!(w, printmc_w, level, limited, safe, &src))
+}
+
+fn compilebc_w<C: CellType>(backend: &str, text: &str) -> String {
+    let mut t = Toks::new(text);
+    let p = parse_bc::<C>(&mut t);
+    match backend {
+        "jit" => {
+            let ex = BaseJitCompiler::<C>::verif_from_bytecode(p);
+            let mut n = 0;
+            for (l, s) in [(false, true), (true, true), (false, false)] {
+                n += ex.verif_compile(l, s).0.len();
+            }
+            format!("ok {n}")
+        }
+        "bc" => {
+            let ex = BcInterpreter::<C>::verif_from_bytecode(p);
+            let env = Env::parse(",0,-,1,-");
+            let a = exec_with(&ex, Mode::Exec, &env);
+            let b = exec_with(&ex, Mode::Limited(5), &env);
+            let c = exec_with(&ex, Mode::Unsafe(8), &env);
+            format!("ok {} {} {}", a.len(), b.len(), c.len())
+        }
+        _ => "ERR backend".into(),
+    }
+}
+
+/// compilebc|backend|w|bc-text : build (and for the interpreter run) a hand-made bytecode program
+pub fn compilebc(f: &[&str]) -> String {
+    let backend = f[0].to_string();
+    let w: u32 = f[1].parse().unwrap();
+    let text = f[2].to_string();
+    in_child(10000, move || by_width!(w, compilebc_w, &backend, &text))
+}
+
+fn fnv(b: &[u8]) -> u64 {
+    let mut h: u64 = 0xcbf29ce484222325;
+    for x in b {
+        h ^= *x as u64;
+        h = h.wrapping_mul(0x100000001b3);
+    }
+    h
+}
+
+fn det_w<C: CellType>(level: u32, src: &str, noise: &str) -> String {
+    // compile once, then compile unrelated programs, then compile again: everything must be identical
+    let one = |src: &str| -> Result<(String, String, String, Vec<u8>), String> {
+        let p = ir::Program::<C>::parse(src).map_err(|e| err_string(&e))?.optimize(level);
+        let b1 = bc::CodeGen::translate(&p, 2, true);
+        let b2 = bc::CodeGen::translate(&p, 11, false);
+        let mc = BaseJitCompiler::<C>::create(src, level).map_err(|e| err_string(&e))?.print_mc(false, true);
+        Ok((format!("{p:?}"), format!("{b1:?}"), format!("{b2:?}"), mc))
+    };
+    let a = match one(src) {
+        Ok(a) => a,
+        Err(e) => return e,
+    };
+    for n in noise.split(',') {
+        let _ = one(&String::from_utf8(hex_bytes(n)).unwrap_or_default());
+    }
+    let b = match one(src) {
+        Ok(b) => b,
+        Err(e) => return e,
+    };
+    let same = a == b;
+    // machine code embeds absolute addresses of the runtime shims: report it only within the process
+    format!("{} ir={:016x} bc={:016x} jbc={:016x} mclen={}", if same { "same" } else { "DIFF" }, fnv(a.0.as_bytes()), fnv(a.1.as_bytes()), fnv(a.2.as_bytes()), a.3.len())
+}
+
+/// det|w|level|src-hex|noise-hex,noise-hex
+pub fn det(f: &[&str]) -> String {
+    let w: u32 = f[0].parse().unwrap();
+    let level: u32 = f[1].parse().unwrap();
+    let src = String::from_utf8(hex_bytes(f[2])).expect("utf8 source");
+    let noise = f[3].to_string();
+    in_child(30000, move || by_width!(w, det_w, level, &src, &noise))
+}
+
+fn reuse_w<C: CellType>(backend: &str, level: u32, src: &str, env: &Env) -> String {
+    macro_rules! go {
+        ($t:ty) => {
+            match <$t>::create(src, level) {
+                Ok(ex) => {
+                    let a = exec_with(&ex, Mode::Limited(3000), env);
+                    let b = exec_with(&ex, Mode::Limited(3000), env);
+                    let c = exec_with(&ex, Mode::Limited(7), env);
+                    let d = exec_with(&ex, Mode::Limited(3000), env);
+                    if a == b && b == d { format!("same {}", c.len()) } else { format!("DIFF {a} / {b} / {d}") }
+                }
+                Err(e) => format!("create-{}", err_string(&e)),
+            }
+        };
+    }
+    match backend {
+        "inplace" => go!(InplaceInterpreter<C>),
+        "ir" => go!(IrInterpreter<C>),
+        "bc" => go!(BcInterpreter<C>),
+        "jit" => go!(BaseJitCompiler<C>),
+        b => format!("ERR backend {b}"),
+    }
+}
+
+/// reuse|backend|w|level|src-hex|env : the same executor run repeatedly on fresh contexts
+pub fn reuse(f: &[&str]) -> String {
+    let backend = f[0].to_string();
+    let w: u32 = f[1].parse().unwrap();
+    let level: u32 = f[2].parse().unwrap();
+    let src = String::from_utf8(hex_bytes(f[3])).expect("utf8 source");
+    let env = Env::parse(f[4]);
+    in_child(30000, move || by_width!(w, reuse_w, &backend, level, &src, &env))
+}
+
+fn timecreate_w<C: CellType>(level: u32, src: &str) -> String {
+    let t0 = std::time::Instant::now();
+    let r1 = IrInterpreter::<C>::create(src, level).is_ok();
+    let t1 = t0.elapsed().as_micros();
+    let r2 = BcInterpreter::<C>::create(src, level).is_ok();
+    let r3 = BaseJitCompiler::<C>::create(src, level).map(|ex| ex.print_mc(false, true).len()).unwrap_or(0);
+    let t2 = t0.elapsed().as_micros();
+    format!("ok {r1} {r2} {r3} ir_us={t1} all_us={t2}")
+}
+
+/// timecreate|w|level|src-hex
+pub fn timecreate(f: &[&str]) -> String {
+    let w: u32 = f[0].parse().unwrap();
+    let level: u32 = f[1].parse().unwrap();
+    let src = String::from_utf8(hex_bytes(f[2])).expect("utf8 source");
+    in_child(60000, move || by_width!(w, timecreate_w, level, &src))
+}
